@@ -13,21 +13,24 @@ def main(argv):
     from specs import registry
     from pyvc import thorough
     props = [a for a in argv if not a.startswith('-')] or sorted(registry.CLAIMS)
-    missed = []; stale = []; total = 0
+    missed = []; stale = []; by_design = []; total = 0
     for prop in props:
         t0 = time.time()
         jobs = registry.jobs_for(prop, 'quick')
         res = thorough.selftest(prop, jobs) if jobs else {}
         for seed, r in sorted(res.items()):
             total += 1
-            if r.get('caught') is None:
+            design = r.get('caught') is None and str(r.get('note', '')).startswith('not detected by design')
+            if design:
+                by_design.append(seed)
+            elif r.get('caught') is None:
                 stale.append(seed)
             elif not r['caught']:
                 missed.append(seed)
-            print('%-16s %-8s refuted=%s undecided_units=%s %s' % (seed, {True: 'caught', False: 'MISSED', None: 'stale'}[r.get('caught')],
+            print('%-16s %-8s refuted=%s undecided_units=%s %s' % (seed, 'outside' if design else {True: 'caught', False: 'MISSED', None: 'stale'}[r.get('caught')],
                                                                   r.get('refuted_obligations', '-'), r.get('undecided_units', '-'), r.get('note', '')))
         print('# %s: %d seeded changes in %.0fs' % (prop, len(res), time.time() - t0)); sys.stdout.flush()
-    print(json.dumps({'seeded_changes': total, 'missed': missed, 'patch_no_longer_applies': stale}))
+    print(json.dumps({'seeded_changes': total, 'missed': missed, 'patch_no_longer_applies': stale, 'not_detected_by_design_outside_a_documented_parameter_type': by_design}))
     return 1 if missed else 0
 
 
